@@ -230,6 +230,10 @@ def admissible_final(name, rules):
         if len(v) > 63:
             out.add(STRIP.sub("", name))     # too long: fall back to the original name
             out.add(v)                       # ... or keep it with a warning (original too long)
+        elif not v:
+            # nothing legal is left of the supplied name: the original name (a final name must
+            # not be empty - the same fall-back as for names that are too long)
+            out.add(STRIP.sub("", name))
         else:
             out.add(v)
     return out
